@@ -304,6 +304,12 @@ def run(ctx):
         if method == "simpson":
             nsamp = [v | 1 for v in nsamp]
         a = {"nsamples": nsamp, "method": method}
+        if i % 10 == 9:
+            # a level with MANY points (its smallest weights are ~1e-4): every node still has to be there
+            nsamp = [{"cc": 30, "gl": 70, "midpoint": 40, "trapezoid": 45, "simpson": 41}[method]] + ([2] if i % 20 == 19 else [])
+            a = {"nsamples": nsamp, "method": method}
+            depth = len(nsamp)
+            ctx.count("stack:large_level")
         if i % 4 == 1:
             a["via_batch"] = True                   # sizes and rule handed to the batch driver as options
             ctx.count("stack:via_batch_options")
